@@ -164,7 +164,7 @@ def stalled(ans):
     return ans == net.BLOCK or ans == net.N(0) or ans[0] == "ssl"
 
 
-def tx_config(kind, lens, stalls, part):
+def tx_config(kind, lens, stalls, part, replay=None):
     """All send-answer sequences for one transport and one queue."""
     msgs = messages(lens)
     total = b"".join(msgs)
@@ -238,16 +238,20 @@ def tx_config(kind, lens, stalls, part):
                            "%s transmit: %s" % (kind, bad[1]),
                            dict(transport=kind, direction="tx", queue=[mm.decode() for mm in msgs],
                                 send_answers=answers, choices=ch.choices, accepted=sent.decode(),
+                                case=["tx", kind, list(lens), stalls],
                                 expected=total.decode(),
                                 how="queue the messages with .tx(), call .serviceTxes() repeatedly; the socket "
                                     "double answers the successive send() calls as listed"))
         return bad
 
+    if replay is not None:
+        run(core.Chooser(replay))
+        return 1
     st = core.dfs(run)
     return st["executions"]
 
 
-def rx_config(kind, nbytes, bs, once, stalls, part):
+def rx_config(kind, nbytes, bs, once, stalls, part, replay=None):
     stream = ALPHABET[:nbytes]
     free = net.Menu(recv_split=True, recv_block=True)
     tight = net.Menu(recv_split=True)
@@ -313,12 +317,28 @@ def rx_config(kind, nbytes, bs, once, stalls, part):
                            "%s receive: %s" % (kind, bad[1]),
                            dict(transport=kind, direction="rx", stream=stream.decode(), bufsize=bs, method=meth,
                                 recv_answers=answers, choices=ch.choices, rxbs=bytes(t.rxbs).decode("latin-1"),
+                                case=["rx", kind, nbytes, bs, once, stalls],
                                 how="peer sends the stream; call the method repeatedly; the socket double answers "
                                     "the successive recv() calls as listed"))
         return bad
 
+    if replay is not None:
+        run(core.Chooser(replay))
+        return 1
     st = core.dfs(run)
     return st["executions"]
+
+
+def finish_replay(pid, path, p):
+    """Common tail of --replay: report whether the recorded case still violates the property."""
+    if p.violations:
+        for group, example, what, _ in p.violations:
+            print("VIOLATION property=%s replay=%s" % (pid, path))
+            print("  what: %s" % what)
+            print("  key:  %s|%s" % (group, example))
+        return 1
+    print("%s replay: the recorded case does not violate the property on this tree" % pid)
+    return 0
 
 
 def configs(tier):
@@ -351,7 +371,23 @@ def work(cfg):
     return p
 
 
+def replay(path):
+    import json
+    r = json.load(open(path))["replay"]
+    init()
+    p = core.Part()
+    c = r["case"]
+    if c[0] == "tx":
+        tx_config(c[1], tuple(c[2]), c[3], p, replay=r["choices"])
+    else:
+        rx_config(c[1], c[2], c[3], c[4], c[5], p, replay=r["choices"])
+    return finish_replay("C24", path, p)
+
+
 def run():
+    import os
+    if os.environ.get("VERIF_REPLAY"):
+        return replay(os.environ["VERIF_REPLAY"])
     net.selftest()
     ck = core.Check("C24", META["level"], META["technique"])
     cfgs = configs(core.TIER)
